@@ -4,7 +4,7 @@ set -e
 export GOFLAGS=-mod=mod GOPROXY=off GOSUMDB=off GOTOOLCHAIN=local PATH=/opt/veriftools/go1.26.8/bin:$PATH
 cd "$(dirname "$0")"
 T=$(mktemp -d)
-(cd e2 && go build -o "$T/" ./cmd/... )
+(cd e2 && go build ./sym/... ./hx/... ./scen/... && go build -o "$T/" ./cmd/c07 ./cmd/c13 )
 if [ -d e1 ]; then (cd e1 && go build -o "$T/ssaexec" . ); fi
 rm -rf "$T"
 echo setup ok
